@@ -79,11 +79,8 @@ pub fn judge(ctx: &mut Ctx, c: &DedupCase) -> bool {
     }
     ctx.count("renamed_entries", renamed.len() as u64);
     // 2. minimality + 6. naming, per original family
-    let coincidence_below = |ids: &[u32]| -> bool {
-        ids.iter().any(|i| c.noncf.contains(i))
-            || reg::reachable(r, ids, true, true).iter().any(|i| c.noncf.contains(i))
-            || ids.iter().any(|i| reg::deep_coincidence(r, *i))
-    };
+    let tainted = reg::tainted_by_coincidence(r, c.noncf);
+    let coincidence_below = |ids: &[u32]| -> bool { reg::coincidence_involved(r, ids, &tainted) };
     for (path, ids) in &fams {
         let any_renamed = ids.iter().any(|i| renamed.contains_key(i));
         if !any_renamed {
